@@ -135,6 +135,16 @@ def masked_cases(chk, rng, n):
         mat = lambda M: llit(M, lambda row: llit(row, qlit))
         exprs.append(f'(sr sq (M.masked_mse_loss q_ops (M.T2 {mat(P)}) (M.T2 {mat(T)}) {llit(mask, lambda m: qlit(F(m)))}))')
         recs.append((P, T, mask, out, out2))
+        if D == 1 and N > 1:
+            # the same rows as 1-D predictions of shape (N,)
+            p1, t1_ = [r[0] for r in P], [r[0] for r in T]
+            o1 = frac(masked_mse_loss(jnp.asarray(np.array(p1, dtype=np.float32)), jnp.asarray(np.array(t1_, dtype=np.float32)), mj))
+            chk.count("masked_1d_cases")
+            if o1 != out:
+                chk.fail("C18:masked_mse_loss:row-weight-1d", "1-D predictions are not masked per sample",
+                         {"predictions": [str(v) for v in p1], "targets": [str(v) for v in t1_], "mask": mask, "impl": str(o1), "expected": str(out)})
+            exprs.append(f'(sr sq (M.masked_mse_loss q_ops (M.T1 {llit(p1, qlit)}) (M.T1 {llit(t1_, qlit)}) {llit(mask, lambda m: qlit(F(m)))}))')
+            recs.append(([[v] for v in p1], [[v] for v in t1_], mask, o1, o1))
     res = chk.model_eval(exprs)
     for (P, T, mask, out, out2), mr in zip(recs, res):
         N, D = len(P), len(P[0])
